@@ -114,13 +114,24 @@ AccAbs(mm, v) ==
          [] OTHER -> <<"other">>
 AbsEq(a, b) == a[1] = "any" \/ (a[1] = b[1] /\ a = b)
 
-PreDesc(mm) == <<Cur(mm).op, mm.code[mm.ip.l].off[mm.ip.o], Len(mm.stk), mm.bp, AccAbs(mm, mm.acc)>>
+\* the slot on top of the control stack: a frame word (argument count, saved %bp / %ep / %ip) or a value
+TopAbs(mm) ==
+  IF Len(mm.stk) = 0 THEN <<"none">>
+  ELSE LET v == mm.stk[Len(mm.stk)] IN
+       CASE v.t = "argc" -> <<"argc", v.v>>
+         [] v.t = "bp" -> <<"bp", v.v>>
+         [] v.t = "ep" -> <<"ep">>
+         [] v.t = "ip" -> <<"ip">>
+         [] OTHER -> Shallow(mm, v)
+
+PreDesc(mm) == <<Cur(mm).op, mm.code[mm.ip.l].off[mm.ip.o], Len(mm.stk), mm.bp, AccAbs(mm, mm.acc), TopAbs(mm)>>
 PreOK(mm, s) ==
   /\ Cur(mm).op = s[1]
   /\ mm.code[mm.ip.l].off[mm.ip.o] = s[2]
   /\ Len(mm.stk) = s[3]
   /\ mm.bp = s[4]
   /\ AbsEq(AccAbs(mm, mm.acc), s[5])
+  /\ (Len(s) < 6 \/ AbsEq(TopAbs(mm), s[6]))
 
 -----------------------------------------------------------------------------
 Form == Rec[si].forms[fi]
